@@ -717,4 +717,5 @@ EVIDENCE = {"C15": {
                     "a quarter of the explicit constructs are followed by a second construct from the very same argument objects",
                     "instrument_transfer_function stays None (not JSON-serialisable)"],
 }}
-REQUIRED_PROBES = {"C15": ["roundtrip_judged_direct", "roundtrip_judged_dispatcher", "mutated_in_place"]}
+REQUIRED_PROBES = {"C15": ["roundtrip_judged_direct", "roundtrip_judged_dispatcher", "mutated_in_place", "settings_object_copied",
+                           "original_used_before_on_longer_records"]}
